@@ -490,6 +490,12 @@ func corr(seed uint64, n, plen int, bgs []int) {
 			if m := mutate(r, sa); smallLengths(m) {
 				sampleFns(hm, r, m)
 			}
+			// a wrapping / oversized length field, for GetNalusFromSample only (it returns an error or
+			// panics, it cannot spin; the other walkers on hostile lengths are C16's subject)
+			h := append([]byte{}, sa...)
+			lf := []uint32{0xfffffffc, 0xffffffff, 0x80000000, uint32(len(sa)), uint32(len(sa)) - 4, 0x00010000}[r.Intn(6)]
+			binary.BigEndian.PutUint32(h[0:4], lf)
+			emit("gnfs", "-", h)
 		}
 	}
 	out.Flush()
